@@ -124,6 +124,9 @@ type Exec struct {
 	globals       map[*ssa.Global]*Object
 	inited        map[*ssa.Package]bool
 	initing       map[*ssa.Package]bool
+	initSkipped   map[*ssa.Package]bool
+	initAssigned  map[*ssa.Package]map[*ssa.Global]bool
+	lazyIniting   map[*ssa.Global]bool
 	persistMode   bool
 	fnInfos       map[*ssa.Function]*fnInfo
 	depth         int
@@ -691,8 +694,190 @@ func (ex *Exec) globalObj(g *ssa.Global) *Object {
 	ex.globals[g] = o
 	if g.Pkg != nil {
 		ex.ensureInit(g.Pkg)
+		if ex.initSkipped[g.Pkg] && ex.assignedByInit(g) {
+			if _, isErr := o.Val.(Iface); !isErr || o.Val.(Iface).T == nil {
+				o.Val = Poison{Name: g.String(), G: g}
+			}
+		}
 	}
 	return o
+}
+
+// assignedByInit reports whether package initialisation stores to g: the
+// synthesized init (package-level initialisers) or any source-level init().
+func (ex *Exec) assignedByInit(g *ssa.Global) bool {
+	set, ok := ex.initAssigned[g.Pkg]
+	if !ok {
+		set = map[*ssa.Global]bool{}
+		scan := func(fn *ssa.Function) {
+			if fn == nil {
+				return
+			}
+			for _, b := range fn.Blocks {
+				for _, in := range b.Instrs {
+					if st, ok := in.(*ssa.Store); ok {
+						if gg, ok := st.Addr.(*ssa.Global); ok {
+							set[gg] = true
+						}
+					}
+				}
+			}
+		}
+		scan(g.Pkg.Func("init"))
+		for name, m := range g.Pkg.Members {
+			if fn, ok := m.(*ssa.Function); ok && strings.HasPrefix(name, "init#") {
+				scan(fn)
+			}
+		}
+		ex.initAssigned[g.Pkg] = set
+	}
+	return set[g]
+}
+
+// lazyInitGlobal gives a global of a package whose init is not executed its
+// real initial value by running only the slice of the package initializer
+// that computes it: the one store to the global, the straight-line
+// instructions its value depends on, and the stores into the temporaries those
+// allocate. Other globals it reads are initialised the same way, on demand.
+// Anything else (control flow in the initialiser, assignment in a source-level
+// init(), several stores) leaves the global unmodelled and is an engine error.
+func (ex *Exec) lazyInitGlobal(pz Poison, o *Object) {
+	g := pz.G
+	fail := func(why string) {
+		panic(engineErr("read of %s: its package's init is not executed by the engine and its initial value cannot be derived on demand (%s); force the init with //verif:init, assign it in the harness, or stub the reader", pz.Name, why))
+	}
+	if g == nil {
+		fail("no initializer information")
+	}
+	if ex.lazyIniting[g] {
+		fail("initialisation cycle")
+	}
+	initFn := g.Pkg.Func("init")
+	if initFn == nil {
+		fail("no package initializer")
+	}
+	var st *ssa.Store
+	count := 0
+	for _, b := range initFn.Blocks {
+		for _, in := range b.Instrs {
+			if s, ok := in.(*ssa.Store); ok && s.Addr == ssa.Value(g) {
+				st = s
+				count++
+			}
+		}
+	}
+	for name, m := range g.Pkg.Members {
+		if fn, ok := m.(*ssa.Function); ok && strings.HasPrefix(name, "init#") {
+			for _, b := range fn.Blocks {
+				for _, in := range b.Instrs {
+					if s, ok := in.(*ssa.Store); ok && s.Addr == ssa.Value(g) {
+						count += 2
+					}
+				}
+			}
+		}
+	}
+	if count != 1 {
+		fail("assigned by a source-level init() or more than once")
+	}
+	b := st.Block()
+	need := map[ssa.Instruction]bool{}
+	var visit func(v ssa.Value) bool
+	visit = func(v ssa.Value) bool {
+		switch v.(type) {
+		case *ssa.Const, *ssa.Global, *ssa.Function, *ssa.Builtin:
+			return true
+		}
+		in, ok := v.(ssa.Instruction)
+		if !ok || in.Block() != b {
+			return false
+		}
+		if need[in] {
+			return true
+		}
+		switch in.(type) {
+		case *ssa.Alloc, *ssa.IndexAddr, *ssa.FieldAddr, *ssa.Slice, *ssa.Convert, *ssa.ChangeType, *ssa.MakeInterface,
+			*ssa.UnOp, *ssa.BinOp, *ssa.MakeSlice, *ssa.MakeMap, *ssa.Call, *ssa.MakeClosure, *ssa.Field, *ssa.Index,
+			*ssa.Extract, *ssa.ChangeInterface, *ssa.SliceToArrayPointer, *ssa.MakeChan:
+		default:
+			return false
+		}
+		need[in] = true
+		for _, op := range in.Operands(nil) {
+			if *op != nil && !visit(*op) {
+				return false
+			}
+		}
+		return true
+	}
+	if !visit(st.Val) {
+		fail("its initialiser has control flow or uses an instruction outside the supported slice")
+	}
+	root := func(v ssa.Value) ssa.Value {
+		for {
+			switch x := v.(type) {
+			case *ssa.IndexAddr:
+				v = x.X
+			case *ssa.FieldAddr:
+				v = x.X
+			case *ssa.Slice:
+				v = x.X
+			default:
+				return v
+			}
+		}
+	}
+	for changed := true; changed; {
+		changed = false
+		for _, in := range b.Instrs {
+			if in == ssa.Instruction(st) {
+				break
+			}
+			if need[in] {
+				continue
+			}
+			switch x := in.(type) {
+			case *ssa.Store:
+				if ri, ok := root(x.Addr).(ssa.Instruction); ok && need[ri] {
+					if !visit(x.Addr) || !visit(x.Val) {
+						fail("a store feeding its initialiser is outside the supported slice")
+					}
+					need[in] = true
+					changed = true
+				}
+			case *ssa.MapUpdate:
+				if ri, ok := x.Map.(ssa.Instruction); ok && need[ri] {
+					if !visit(x.Key) || !visit(x.Value) {
+						fail("a map update feeding its initialiser is outside the supported slice")
+					}
+					need[in] = true
+					changed = true
+				}
+			}
+		}
+	}
+	ex.lazyIniting[g] = true
+	save, saveSpec, savePC, saveFrame := ex.persistMode, ex.speculating, ex.pc, ex.curFrame
+	ex.persistMode = true
+	ex.speculating = 0
+	defer func() {
+		ex.persistMode, ex.speculating, ex.pc, ex.curFrame = save, saveSpec, savePC, saveFrame
+		delete(ex.lazyIniting, g)
+	}()
+	fi := ex.fnInfoOf(initFn)
+	fr := &frame{fn: initFn, info: fi, env: make([]Value, fi.n)}
+	o.Val = ex.zero(deref(g.Type()))
+	for _, in := range b.Instrs {
+		if need[in] || in == ssa.Instruction(st) {
+			if pan := ex.step(fr, in); pan != nil {
+				fail("its initialiser panicked: " + pan.msg)
+			}
+		}
+		if in == ssa.Instruction(st) {
+			break
+		}
+	}
+	ex.St.Intrinsics["lazy-init:"+pz.Name]++
 }
 
 func deref(t types.Type) types.Type {
@@ -742,11 +927,13 @@ func (ex *Exec) ensureInit(p *ssa.Package) {
 	path := p.Pkg.Path()
 	if ex.H != nil && ex.H.NoInit[path] {
 		ex.inited[p] = true
+		ex.initSkipped[p] = true
 		return
 	}
 	force := ex.H != nil && ex.H.ForceInit[path]
 	if skipInit(path) && !force {
 		ex.inited[p] = true
+		ex.initSkipped[p] = true
 		ex.sentinelInit(p)
 		return
 	}
